@@ -471,6 +471,11 @@ theorem safe_setData (i v : Nat) : Safe (setData i v) := by
   unfold setData
   exact Spec.pure (by simp [ids_setDat]; ceqn)
 
+theorem safe_incData (i : Nat) : Safe (incData i) := by
+  intro n
+  unfold incData
+  exact Spec.pure (by simp [ids_setDat]; ceqn)
+
 theorem safe_whenD (c : Node → Bool) {op : NodeOp} (h : Safe op) : Safe (whenD c op) := by
   intro n
   unfold whenD
